@@ -38,6 +38,34 @@ func ShapeCanonNamed(v ssa.Value) string {
 // RangeIndexOf recognises go/ssa's lowering of `for i := range s` (i = phi(-1, i+1); the body uses i+1;
 // the loop runs while i+1 < len(s)) and returns s.
 func RangeIndexOf(v ssa.Value) (ssa.Value, bool) {
+	// the counted form `for i := 0; i < len(s); i++` (also with !=): i = phi(0, i+1)
+	if phi, isPhi := v.(*ssa.Phi); isPhi && len(phi.Edges) == 2 {
+		zero, step := false, false
+		for _, e := range phi.Edges {
+			if k, isK := constInt(e); isK && k == 0 {
+				zero = true
+			}
+			if inc, isB := e.(*ssa.BinOp); isB && inc.Op == token.ADD && inc.X == ssa.Value(phi) {
+				if k, isK := constInt(inc.Y); isK && k == 1 {
+					step = true
+				}
+			}
+		}
+		if zero && step {
+			for _, ref := range *phi.Referrers() {
+				cmp, ok := ref.(*ssa.BinOp)
+				if !ok || (cmp.Op != token.LSS && cmp.Op != token.NEQ) || cmp.X != ssa.Value(phi) || cmp.Block() != phi.Block() {
+					continue
+				}
+				if c, ok := cmp.Y.(*ssa.Call); ok {
+					if b, isB := c.Call.Value.(*ssa.Builtin); isB && b.Name() == "len" && len(c.Call.Args) == 1 {
+						return c.Call.Args[0], true
+					}
+				}
+			}
+		}
+		return nil, false
+	}
 	bo, ok := v.(*ssa.BinOp)
 	if !ok || bo.Op != token.ADD {
 		return nil, false
@@ -212,6 +240,11 @@ func shape(v ssa.Value, depth int, seen map[ssa.Value]bool) string {
 		}
 		return name + "(" + strings.Join(args, ",") + ")"
 	case *ssa.Phi:
+		if seen[canonKey] {
+			if c, ok := RangeIndexOf(x); ok {
+				return "idx(" + shape(c, depth+1, seen) + ")"
+			}
+		}
 		if seen[x] {
 			return "φ"
 		}
@@ -348,6 +381,9 @@ func argsAtSites(x *ssa.Parameter) []ssa.Value {
 func ReturnedValues(fn *ssa.Function, i int) []ssa.Value {
 	var out []ssa.Value
 	for _, b := range fn.Blocks {
+		if b == fn.Recover {
+			continue // the exit taken after a recovered panic: this module never recovers
+		}
 		for _, ins := range b.Instrs {
 			if ret, ok := ins.(*ssa.Return); ok && i < len(ret.Results) {
 				out = append(out, RetVal(ret, i))
